@@ -111,6 +111,19 @@ class _Capture(logging.Handler):
         self.records.append((record.levelno, record.getMessage()))
 
 
+def dim_items(cfg):
+    """items per letter of the system's dimensions"""
+    it = {l: [f"{l}{i + 1}" for i in range(LENS[l])] for l in "tab"}
+    if cfg.get("falsy_items"):
+        it["t"] = list(range(LENS["t"]))
+        it["b"] = [""] + [f"b{i + 1}" for i in range(1, LENS["b"])]
+    if cfg.get("mixed_items"):
+        # items of more than one Python type in one dimension: a text period next to integer years, a whole number next to a fraction
+        it["t"] = (["pre-industrial", 1950, 2000, 2050])[: LENS["t"]]
+        it["b"] = ([1, 2.5, 4, 5.5])[: LENS["b"]]
+    return it
+
+
 def _build(cfg, w, nan=False, fortran=False):
     from flodym import MFASystem, Flow, Process, Dimension, DimensionSet, StockArray
     from flodym.stocks import SimpleFlowDrivenStock
@@ -120,6 +133,10 @@ def _build(cfg, w, nan=False, fortran=False):
         # labels that are falsy in Python: periods counted from 0, an empty string
         dims["t"] = Dimension(name="Time", letter="t", items=list(range(LENS["t"])), dtype=int)
         dims["b"] = Dimension(name="Beta", letter="b", items=[""] + [f"b{i + 1}" for i in range(1, LENS["b"])])
+    if cfg.get("mixed_items"):
+        mi = dim_items(cfg)
+        dims["t"] = Dimension(name="Time", letter="t", items=mi["t"])
+        dims["b"] = Dimension(name="Beta", letter="b", items=mi["b"])
     allset = DimensionSet(dim_list=[dims[l] for l in "tab"])
     ids = list(range(len(cfg["procs"])))
     if cfg.get("permuted_ids") and len(ids) > 2:
